@@ -3,7 +3,7 @@ from .sched_common import run_sched_property, replay_sched
 
 
 def run(ck):
-    run_sched_property(ck, "C03", sched.oracle_c03, "Properties/C03.v", 120, 2500)
+    run_sched_property(ck, "C03", sched.oracle_c03, "Properties/C03.v", 120, 700)
 
 
 def replay(rec):
